@@ -61,7 +61,10 @@ Record node := mkNode {
   p_lock : option nat;
   nvalue : vsrc;              (* Integer, Float, Boolean, Command, Enumeration, String *)
   conv_pvalue : nat;          (* Converter, IntConverter *)
-  vars : list nat;            (* pVariable of converters and swiss knives *)
+  vars : list nat;            (* the node of every <pVariable> of converters and swiss knives, whatever
+                                 its name: `X`, `X.Value`, `X.Min`, `X.Max`, `X.Inc`, `X.Enum.<Entry>` —
+                                 FormulaEnvCollector::is_readable asks `variable.value()` (the NodeId)
+                                 of every variable and never looks at the accessor suffix *)
   on_value : Z;               (* Boolean *)
   off_value : Z
 }.
